@@ -1,4 +1,119 @@
+/-
+  C10 — removing or cutting out lanelet-network elements leaves no dangling references.
+
+  Model: CRModel.Refs (LaneletNetwork.remove_* / cleanup_*_references / create_from_lanelet_network /
+  create_from_lanelet_list, Scenario.remove_lanelet + remove_hanging_lanelet_members, Scenario.remove_traffic_sign /
+  remove_traffic_light / remove_intersection).  Lemmas: CRProofs.Refs.
+
+  All theorems are for arbitrary networks, arbitrary arguments and arbitrary operation sequences (no size bound).
+-/
 import CRModel.Refs
+import CRProofs.Refs
+
 namespace CR.Refs
-theorem C10_stub : True := trivial
+
+/-- The invariant of a history: no dangling reference, and the property's precondition (a stop line refers only to
+signs / lights its lanelet also references). -/
+def Inv (n : Net) : Prop := NoDangling n ∧ Wf n
+
+/-- `cleanup_ids=True` (the default) for the two constructors; every other operation always cleans up. -/
+def Op.cleans : Op → Prop
+  | .cutOut _ c => c = true
+  | .fromList _ c => c = true
+  | _ => True
+
+theorem inv_removeLanelet (n : Net) (x : Id) (h : Inv n) : Inv (n.removeLanelet x) :=
+  ⟨nd_removeLanelet h.1 x, wf_removeLanelet h.2 x⟩
+theorem inv_removeSign (n : Net) (x : Id) (h : Inv n) : Inv (n.removeSign x) :=
+  ⟨nd_removeSign h.1 x, wf_removeSign h.2 x⟩
+theorem inv_removeLight (n : Net) (x : Id) (h : Inv n) : Inv (n.removeLight x) :=
+  ⟨nd_removeLight h.1 x, wf_removeLight h.2 x⟩
+theorem inv_removeInter (n : Net) (x : Id) (h : Inv n) : Inv (n.removeInter x) :=
+  ⟨nd_removeInter h.1 x, wf_removeInter h.2 x⟩
+
+/-- **No dangling reference after any single operation** (network level and scenario level, including the state a
+scenario-level call leaves behind when it raises `KeyError` half-way), and the precondition is kept, so that the
+statement can be iterated. -/
+theorem C10_inv_step (s : Scn) (op : Op) (h : Inv s.net) (hc : op.cleans) : Inv (s.step op).1.net := by
+  cases op with
+  | netRemoveLanelet x => exact inv_removeLanelet _ x h
+  | netRemoveSign x => exact inv_removeSign _ x h
+  | netRemoveLight x => exact inv_removeLight _ x h
+  | netRemoveInter x => exact inv_removeInter _ x h
+  | scnRemoveLanelets args r =>
+    exact Scn.removeLanelets_inv Inv inv_removeLanelet inv_removeSign inv_removeLight s args r h
+  | scnRemoveSigns xs => exact Scn.removeSigns_inv Inv inv_removeSign s xs h
+  | scnRemoveLights xs => exact Scn.removeLights_inv Inv inv_removeLight s xs h
+  | scnRemoveInter x incs =>
+    show Inv (Scn.idsRemoveAll _ _).1.net
+    rw [Scn.idsRemoveAll_net]
+    exact inv_removeInter _ x h
+  | cutOut keep c =>
+    have hc' : c = true := hc
+    subst hc'
+    show Inv (match s.net.cutOut (fun a => keep.contains a) true with
+      | .ok n' => (({ net := n', ids := n'.allIds } : Scn), (none : Option Err))
+      | .error e => (s, some e)).1.net
+    cases hr : s.net.cutOut (fun a => keep.contains a) true with
+    | ok n' => exact ⟨nd_cutOut h.2 hr, wf_cutOut h.2 hr⟩
+    | error e => exact h
+  | fromList sel c =>
+    have hc' : c = true := hc
+    subst hc'
+    exact ⟨nd_fromList _ sel, wf_fromList h.2 sel true⟩
+
+theorem C10_nodangling_step (s : Scn) (op : Op) (hnd : NoDangling s.net) (hw : Wf s.net) (hc : op.cleans) :
+    NoDangling (s.step op).1.net := (C10_inv_step s op ⟨hnd, hw⟩ hc).1
+
+/-- **No dangling reference after any sequence of removals and cut-outs** (induction over the history). -/
+theorem C10_inv_run (s : Scn) (ops : List Op) (h : Inv s.net) (hc : ∀ op ∈ ops, op.cleans) : Inv (s.run ops).net := by
+  induction ops generalizing s with
+  | nil => exact h
+  | cons o os ih =>
+    exact ih (s.step o).1 (C10_inv_step s o h (hc o List.mem_cons_self))
+      (fun op hop => hc op (List.mem_cons_of_mem _ hop))
+
+theorem C10_nodangling_run (s : Scn) (ops : List Op) (hnd : NoDangling s.net) (hw : Wf s.net)
+    (hc : ∀ op ∈ ops, op.cleans) : NoDangling (s.run ops).net := (C10_inv_run s ops ⟨hnd, hw⟩ hc).1
+
+/-- every intermediate state of a history, too (the `trace` is what the correspondence compares) -/
+theorem C10_nodangling_trace (s : Scn) (ops : List Op) (h : Inv s.net) (hc : ∀ op ∈ ops, op.cleans) :
+    ∀ r ∈ s.trace ops, NoDangling r.1.net := by
+  induction ops generalizing s with
+  | nil => intro r hr; cases hr
+  | cons o os ih =>
+    intro r hr
+    have h1 := C10_inv_step s o h (hc o List.mem_cons_self)
+    rcases List.mem_cons.1 hr with rfl | hr
+    · exact h1.1
+    · exact ih (s.step o).1 h1 (fun op hop => hc op (List.mem_cons_of_mem _ hop)) r hr
+
+/-- "no remaining element refers to a removed id", spelled out relation by relation: in a network without dangling
+references an id that is not (any more) an element of the network occurs in no relation at all. -/
+theorem C10_no_ref_to_absent {n : Net} (h : NoDangling n) :
+    (∀ x, x ∉ n.lids → ∀ l ∈ n.lanelets, x ∉ l.pred ∧ x ∉ l.succ ∧ l.adjL ≠ some x ∧ l.adjR ≠ some x) ∧
+    (∀ x, x ∉ n.lids → ∀ i ∈ n.inters, x ∉ i.crossings ∧
+        ∀ k ∈ i.incomings, x ∉ k.inc ∧ x ∉ k.right ∧ x ∉ k.straight ∧ x ∉ k.left) ∧
+    (∀ x, x ∉ n.sids → ∀ l ∈ n.lanelets, x ∉ l.signs ∧ ∀ st, l.stop = some st → ∀ r, st.signRef = some r → x ∉ r) ∧
+    (∀ x, x ∉ n.tids → ∀ l ∈ n.lanelets, x ∉ l.lights ∧ ∀ st, l.stop = some st → ∀ r, st.lightRef = some r → x ∉ r) := by
+  obtain ⟨h1, h2, h3, h4⟩ := h
+  refine ⟨fun x hx l hl => ?_, fun x hx i hi => ?_, fun x hx l hl => ?_, fun x hx l hl => ?_⟩
+  · have := h1 l hl x
+    simp only [Lanelet.lrefs, List.mem_append, Option.mem_toList] at this
+    refine ⟨fun c => hx (this (Or.inl (Or.inl (Or.inl c)))), fun c => hx (this (Or.inl (Or.inl (Or.inr c)))),
+      fun c => hx (this (Or.inl (Or.inr (by simp [c])))), fun c => hx (this (Or.inr (by simp [c])))⟩
+  · have := h4 i hi x
+    simp only [Intersection.lrefs, Incoming.lrefs, List.mem_append, List.mem_flatMap] at this
+    refine ⟨fun c => hx (this (Or.inl c)), fun k hk => ⟨fun c => hx (this (Or.inr ⟨k, hk, ?_⟩)),
+      fun c => hx (this (Or.inr ⟨k, hk, ?_⟩)), fun c => hx (this (Or.inr ⟨k, hk, ?_⟩)),
+      fun c => hx (this (Or.inr ⟨k, hk, ?_⟩))⟩⟩ <;> simp [c]
+  · have := h2 l hl x
+    simp only [List.mem_append] at this
+    refine ⟨fun c => hx (this (Or.inl c)), fun st hst r hr c => hx (this (Or.inr ?_))⟩
+    simp [Lanelet.stopS, hst, StopLine.srefs, hr, c]
+  · have := h3 l hl x
+    simp only [List.mem_append] at this
+    refine ⟨fun c => hx (this (Or.inl c)), fun st hst r hr c => hx (this (Or.inr ?_))⟩
+    simp [Lanelet.stopT, hst, StopLine.trefs, hr, c]
+
 end CR.Refs
